@@ -96,19 +96,33 @@ def line(numel, frame, ops):
 PITCH = 1e-3
 
 
+# the rigid motion (R, t) applied to the probe of the current history after it was built (None: probe at rest, PCS = GCS);
+# element identities are read back through it
+_MOTION = None
+
+
 def build(numel, frame):
     import arim
 
     locs = np.zeros((numel, 3))
     locs[:, 0] = np.arange(numel) * PITCH
     probe = arim.Probe(locs, 1e6)
+    if _MOTION is not None:
+        probe.rotate(_MOTION[0])
+        probe.translate(_MOTION[1])
     tt = np.array([[d, d + 0.5] for _, _, d in frame], dtype=float).reshape(len(frame), 2)
     time = arim.Time(0.0, 1.0, 2)
     return arim.Frame(tt, time, [a for a, _, _ in frame], [b for _, b, _ in frame], probe, None)
 
 
 def ids_of(probe):
-    return [int(round(x / PITCH)) for x in probe.locations.x]
+    """which physical element sits at each index: its position, brought back through the known motion of the probe, in pitches"""
+    c = np.asarray(probe.locations.coords, dtype=float)
+    if _MOTION is not None:
+        c = (c - _MOTION[1]) @ _MOTION[0]          # R^T (x - t), row-vector form
+    ids = c[:, 0] / PITCH
+    off = np.abs(ids - np.round(ids)).max(initial=0.0) + np.abs(c[:, 1:]).max(initial=0.0) / PITCH
+    return [int(round(x)) for x in ids] if off < 1e-6 else [-999 - k for k in range(len(ids))]   # not at any physical element
 
 
 def state_of(fr):
@@ -244,7 +258,16 @@ def oracle_op(ctx, before, after, op, cj):
 def run_history(ctx, numel, frame, ops, answer=None, rng=None):
     """run a history on the implementation; if `ops` is None they are generated on the fly from
     the current frame / probe sizes. Returns (ops, states)."""
+    global _MOTION
     cj = {"numel": numel, "frame": frame, "ops": []}
+    if rng is not None and rng.random() < 0.5:
+        import fixtures
+        _MOTION = (fixtures.rot3(rng), rng.normal(size=3) * 2e-2)       # the probe was tilted and lifted before the acquisition
+        cj["probe_motion"] = [_MOTION[0].tolist(), _MOTION[1].tolist()]
+    elif rng is not None:
+        _MOTION = None
+    elif _MOTION is not None:
+        cj["probe_motion"] = [_MOTION[0].tolist(), _MOTION[1].tolist()]
     fr = build(numel, frame)
     states = []
     s, ok = state_of(fr)
@@ -450,6 +473,8 @@ def replay(ctx, body):
         return True
     ops = [tuple(tuple(x) if isinstance(x, list) and i == 1 else x for i, x in enumerate(o)) for o in cj["ops"]]
     ops = [(o[0],) if len(o) == 1 else ((o[0], tuple(o[1]) if o[1][0] == "s" else (o[1][0], o[1][1])) + tuple(o[2:])) for o in ops]
+    global _MOTION
+    _MOTION = (np.array(cj["probe_motion"][0]), np.array(cj["probe_motion"][1])) if cj.get("probe_motion") else None
     before = len(ctx.violations)
     run_history(ctx, cj["numel"], [tuple(t) for t in cj["frame"]], ops)
     for v in ctx.violations[before:]:
